@@ -6,6 +6,7 @@ from contracts.bounded_upd import run_bounded
 def run(run):
     run.assume("S-REAL", "S-PY", "S-NUMPY", "A-LSODA")
     UF.c08_facets(run)
+    UF.callee_frames(run)
     UF.hidden_state_scan(run)
     UF.update_all_facets(run)
     _phi_product(run)
